@@ -280,6 +280,8 @@ CATALOG: List[Cfg] = [
     _c("connector-3x2-rw-T3", "connector", "Connector(G.connector.UniformRandomGenerator(3, 2), "
        "reward_fn=R.connector.DenseRewardFn(2.0, -0.5), time_limit=3)", kind="awkward", keys_quick=2,
        keys_thorough=4, time_limit=3),
+    _c("connector-4x1-T4", "connector", "Connector(G.connector.UniformRandomGenerator(4, 1), time_limit=4)",
+       kind="awkward", keys_quick=2, keys_thorough=4, time_limit=4),
     _c("connector-default", "connector", "Connector()", kind="default", depth=1, keys_quick=1,
        keys_thorough=1, time_limit=50, quick=False),
     # ---------------- CVRP
@@ -312,6 +314,9 @@ CATALOG: List[Cfg] = [
     # one option at its non-default value, all others default (penalty stays 0.0)
     _c("lbf-5-nonorm-T2", "lbf", "LevelBasedForaging(G.lbf.RandomGenerator(5, 2, 1, fov=5), "
        "normalize_reward=False, time_limit=2)", kind="awkward", keys_quick=1, keys_thorough=3, time_limit=2),
+    # a single agent: every per-agent axis has length 1
+    _c("lbf-5x1x1-T3", "lbf", "LevelBasedForaging(G.lbf.RandomGenerator(5, 1, 1, fov=2, force_coop=False), time_limit=3)",
+       kind="awkward", keys_quick=2, keys_thorough=4, time_limit=3),
     _c("lbf-default", "lbf", "LevelBasedForaging()", kind="default", depth=1, keys_quick=1,
        keys_thorough=2, time_limit=100),
     # ---------------- Maze
@@ -338,6 +343,8 @@ CATALOG: List[Cfg] = [
     _c("mmst-12-T2-rw", "mmst", "MMST(G.mmst.SplitRandomGenerator(12, 18, 4, 2, 3, 2), "
        "reward_fn=R.mmst.DenseRewardFn(reward_values=(5.0, -2.0, -3.0)), time_limit=2)", kind="awkward",
        keys_quick=1, keys_thorough=2, time_limit=2),
+    _c("mmst-6-1agent-T3", "mmst", "MMST(G.mmst.SplitRandomGenerator(6, 6, 3, 1, 3, 3), time_limit=3)", kind="awkward",
+       keys_quick=2, keys_thorough=4, time_limit=3),
     _c("mmst-default", "mmst", "MMST()", kind="default", depth=1, keys_quick=1, keys_thorough=1,
        time_limit=70, quick=False),
     # ---------------- MultiCVRP
@@ -349,6 +356,11 @@ CATALOG: List[Cfg] = [
        "reward_fn=R.multi_cvrp.SparseReward(2, 6, 10))", depth=2, kind="awkward", keys_quick=1,
        keys_thorough=2, horizon="12", quick=False, modeb="last"),
     # ---------------- PacMan
+    _c("pacman-9x11-T4", "pac_man", "PacMan(generator=M.pac_man.generator.AsciiGenerator(INJ.PACMAN_SMALL), "
+       "time_limit=4)", kind="awkward", depth=5, keys_quick=1, keys_thorough=3, time_limit=4),
+    _c("pacman-9x11-T12", "pac_man", "PacMan(generator=M.pac_man.generator.AsciiGenerator(INJ.PACMAN_SMALL), "
+       "time_limit=12)", kind="awkward", depth=12, keys_quick=1, keys_thorough=2, time_limit=12, quick=False,
+       max_states_thorough=60_000),
     _c("pacman-default", "pac_man", "PacMan()", kind="default", depth=5, keys_quick=1, keys_thorough=3,
        time_limit=1000),
     _c("pacman-T3", "pac_man", "PacMan(time_limit=3)", kind="awkward", depth=5, keys_quick=1,
@@ -360,6 +372,9 @@ CATALOG: List[Cfg] = [
     _c("rware-awk-T2", "robot_warehouse",
        f"RobotWarehouse(G.robot_warehouse.RandomGenerator({RW_AWK}), time_limit=2)",
        kind="awkward", keys_quick=1, keys_thorough=2, time_limit=2, quick=False),
+    _c("rware-1agent-T3", "robot_warehouse",
+       "RobotWarehouse(G.robot_warehouse.RandomGenerator(shelf_rows=1, shelf_columns=3, column_height=1, num_agents=1, "
+       "sensor_range=1, request_queue_size=2), time_limit=3)", kind="awkward", keys_quick=2, keys_thorough=4, time_limit=3),
     _c("rware-default", "robot_warehouse", "RobotWarehouse()", kind="default", depth=1, keys_quick=1,
        keys_thorough=1, time_limit=500, quick=False),
     # ---------------- Snake
